@@ -31,9 +31,6 @@ F25 = "C20-blanks-inside-comment-rewritten-per-pass"
 
 SCAN_MAX = 1200
 
-STOP_KINDS = {"(", "AT_DOC", "AT_HANDLER", ";", "}"}
-
-
 class Unrenderable(Exception):
     pass
 
@@ -253,46 +250,6 @@ def outc(s):
 
 # ---- shapes -----------------------------------------------------------------------------
 
-def route_comment_positions(toks, cmts):
-    """F10 shape on the Go scanner's token stream: indexes (into cmts) of comments that directly
-    follow the last token of a route path and precede '(' or 'returns'."""
-    res = []
-    path_last = set()
-    i = 0
-    n = len(toks)
-    while i < n:
-        if toks[i][0] == "AT_HANDLER" and i + 2 < n and toks[i + 1][0] == "IDENT" and toks[i + 2][0] == "IDENT" \
-                and toks[i + 2][1] in c20gen.HTTP:
-            j = i + 3
-            while j < n and not (toks[j][0] in STOP_KINDS or (toks[j][0] == "IDENT" and toks[j][1] == "returns"
-                                                              and toks[j - 1][0] != "-")):
-                j += 1
-            if j < n and j - 1 >= i + 3 and (toks[j][0] == "(" or toks[j][1] == "returns"):
-                path_last.add(j - 1)
-            i = j
-        else:
-            i += 1
-    for ci, c in enumerate(cmts):
-        if c[0] in path_last:
-            res.append(ci)
-    return res
-
-
-def empty_service_comment_positions(toks, cmts):
-    """shape of the (fixed) finding F16: comments between the braces of an empty service body"""
-    res = []
-    for ci, c in enumerate(cmts):
-        i = c[0]
-        if i < 2 or i + 1 >= len(toks) or toks[i][0] != "{" or toks[i + 1][0] != "}":
-            continue
-        j = i - 1
-        if j >= 2 and toks[j][1] == "api" and toks[j - 1][0] == "-":
-            j -= 2
-        if j >= 1 and toks[j][0] == "IDENT" and toks[j - 1][0] == "IDENT" and toks[j - 1][1] == "service":
-            res.append(ci)
-    return res
-
-
 def edit_comments(src, cmts, edits):
     """replace the comments cmts[i] by edits[i] (i in edits) in src.  The scanner's line numbers
     cannot be used (it does not count the line breaks inside block comments and raw strings), so
@@ -313,20 +270,6 @@ def edit_comments(src, cmts, edits):
 
 def delete_comments(src, cmts, idxs):
     return edit_comments(src, cmts, {i: " " for i in idxs})
-
-
-CONT_WS = re.compile(r"\n[ \t]+")
-
-
-def multiline_indented(cmts):
-    """F17 shape: indexes of block comments with a continuation line that starts with blanks/tabs"""
-    return [i for i, c in enumerate(cmts) if c[1] == "DOCUMENT" and CONT_WS.search(c[2])]
-
-
-def only_leading_ws_differs(a, b):
-    """do the texts a and b differ only in the leading white space of some lines?"""
-    la, lb = a.split("\n"), b.split("\n")
-    return len(la) == len(lb) and all(x.lstrip(" \t") == y.lstrip(" \t") for x, y in zip(la, lb))
 
 
 def failure_modes(o):
@@ -372,54 +315,6 @@ def lost_comments(o):
         else:
             lost.append(i)
     return lost
-
-
-STR_WS = re.compile(r"\t|[ \t]+\n|\n[ \t]+")
-
-
-def string_ws_edits(toks):
-    """F24 shape: {token index: repaired text} for STRING/RAW_STRING tokens holding a tab or blanks
-    next to a line break"""
-    res = {}
-    for i, t in enumerate(toks):
-        if t[0] in ("STRING", "RAW_STRING") and STR_WS.search(t[1]):
-            x = re.sub(r"[ \t]*\n[ \t]*", "\n", t[1]).replace("\t", " ")
-            res[i] = x
-    return res
-
-
-def apply_string_edits(src, toks, edits):
-    """replace the string tokens edits[i] in src (located in order of appearance)"""
-    cur = 0
-    spans = []
-    for i, t in enumerate(toks):
-        if t[0] not in ("STRING", "RAW_STRING"):
-            continue
-        off = src.find(t[1], cur)
-        if off < 0:
-            return None
-        if i in edits:
-            spans.append((off, off + len(t[1]), edits[i]))
-        cur = off + len(t[1])
-    for a, e, x in sorted(spans, reverse=True):
-        src = src[:a] + x + src[e:]
-    return src
-
-
-CMT_WS = re.compile(r"\t|[ \t]{2,}(\r?\n|$)")      # F25 shape: a tab, or 2+ blanks at the end of a line
-
-
-COMMENT_REPAIR = {
-    F17: lambda t: CONT_WS.sub("\n", t),
-    F25: lambda t: re.sub(r"[ \t]+(\r?\n|$)", r"\1", re.sub(r"[ \t]*\t[ \t]*", " ", t)),
-}
-
-
-def only_blank_runs_differ(a, b):
-    """do the texts differ only in the length of runs of blanks/tabs inside their lines?"""
-    la, lb = a.split("\n"), b.split("\n")
-    return len(la) == len(lb) and all(re.sub(r"[ \t]+", " ", x).strip() == re.sub(r"[ \t]+", " ", y).strip()
-                                      for x, y in zip(la, lb))
 
 
 def mutant_shape(m):
@@ -583,14 +478,14 @@ class C20(Property):
             # a shrink candidate of a valid failing program that is no longer valid: not a
             # smaller instance of the same failure (it would drift to the parser-crash findings)
             obs["skipped"] = "shrink candidate no longer valid"
-            return "mkCase None None true [] [] (Some []) OOk OOk [] [] (Some []) true true false []"
+            return "mkCase None None true [] [] [] (Some []) OOk OOk [] [] (Some []) true true false []"
         if case.get("expect_valid"):
             # deleting lines can glue two route lines into one path with adjacent identifiers
             # ("/a b", which goctl reads as "/ab"): outside the model's [wf], not a smaller instance
             cls, _ = c20gaps.classify(obs["toks"])
             if any(a == "P:id" and b2 == "P:id" for a, b2 in zip(cls, cls[1:])):
                 obs["skipped"] = "shrink candidate with adjacent identifiers in a path"
-                return "mkCase None None true [] [] (Some []) OOk OOk [] [] (Some []) true true false []"
+                return "mkCase None None true [] [] [] (Some []) OOk OOk [] [] (Some []) true true false []"
         try:
             ast = r_api(obs["ast"])
         except Unrenderable as e:
@@ -615,10 +510,11 @@ class C20(Property):
         # the character-level tie costs Coq front-end time (long string literals): every source up
         # to SCAN_MAX characters, every formatted text up to SCAN_MAX/2
         cm_ok = all(clean(c[2]) == c[2] for c in obs["cmts"] + obs["fcmts"]) and "unrenderable_t" not in obs
-        return "mkCase %s %s %s %s %s %s %s %s %s %s %s %s %s %s %s" % (
+        return "mkCase %s %s %s %s %s %s %s %s %s %s %s %s %s %s %s %s" % (
             src_term(case["src"]) if cm_ok and len(case["src"]) <= SCAN_MAX else "None",
             src_term(obs["fmt1"]) if cm_ok and len(obs["fmt1"]) <= SCAN_MAX // 2 else "None",
-            b(not obs.get("serr") and "unrenderable_t" not in obs), toks, r_cmts(obs["cmts"]), ast, outc(obs["pout"]),
+            b(not obs.get("serr") and "unrenderable_t" not in obs), toks, r_cmts(obs["cmts"]),
+            lst([b(c[0] >= 0 and c[3]) for c in obs["cmts"]]), ast, outc(obs["pout"]),
             outc(obs["fout"]), ftoks, r_cmts(obs["fcmts"]), fast, b(obs["idem"]), b(obs.get("file") == "same"),
             b(os.environ.get("C20_STRICT") == "1"), lst([outc(m) for m in obs["muts"]]))
 
@@ -668,7 +564,7 @@ class C20(Property):
         for (src, ast, combo, src2), o2, (ag, ok) in zip(plans, res, verdicts):
             if self._kcache.get(src) is not None:
                 continue
-            if ag and ok and o2["pout"] == "ok" and (F24 in combo or o2["ast"] == ast):
+            if ag and ok and o2["pout"] == "ok" and o2["ast"] == ast:
                 if all(i in kids for i in combo):
                     self._kcache[src] = sorted(combo)[0]
 
@@ -681,16 +577,12 @@ class C20(Property):
 
     def _variants(self, case, obs, kids):
         """Candidate explanations of a failing valid program: (ids, repaired source).
-          F17  block comment with a continuation line starting with blanks/tabs: only idempotence
-               may fail, the two passes differ only in leading white space  -> white space removed
-          F25  comment containing a tab or ending a line with 2+ blanks: only idempotence may fail,
-               the two passes differ only in the width of runs of blanks
-                                                   -> tabs replaced by blanks, trailing blanks removed
           F22  comment carrying a line break in a gap that the committed table lists as printed on
                one line (only idempotence may fail), or in a gap recorded with mode noparse/meaning
                (then that mode may be observed too)                           -> comment removed
-          F24  a STRING/RAW_STRING token containing a tab, or blanks next to a line break: its text
-               is rewritten by the layout pass                           -> white space normalised
+        (the former families F17 / F24 / F25 -- white space inside comments and string literals
+        rewritten by the layout pass -- are repaired in go-zero (96e6290): their shapes stay in the
+        generator and a regression is a VIOLATION)
         (lost comments, F23, are judged by the monitor in extra(): they never excuse anything here)"""
         cmts = obs["cmts"]
         ms = failure_modes(obs)
@@ -698,14 +590,6 @@ class C20(Property):
             return []
         keys = c20gaps.comment_keys(obs["toks"], cmts)
         fam = {}
-        if F17 in kids and "idem" in ms:
-            ix = multiline_indented(cmts)
-            if ix:
-                fam[F17] = {i: COMMENT_REPAIR[F17](cmts[i][2]) for i in ix}
-        if F25 in kids and "idem" in ms:
-            ix = [i for i, c in enumerate(cmts) if CMT_WS.search(c[2])]
-            if ix:
-                fam[F25] = {i: COMMENT_REPAIR[F25](cmts[i][2]) for i in ix}
         if F22 in kids:
             # the registered family: a comment that carries a line break between two tokens the
             # pinned formatter prints on one line (committed list of such gaps) -- idempotence;
@@ -714,52 +598,20 @@ class C20(Property):
                   if (c20gaps.carries_break(k) and c20gaps.one_line(k)) or c20gaps.modes(k) & {"idem", "noparse", "meaning"}]
             if ix:
                 fam[F22] = {i: " " for i in ix}
-        sed = None
-        if F24 in kids and "meaning" in ms:
-            sed = string_ws_edits(obs["toks"])
-            if sed:
-                fam[F24] = sed
         if not fam:
             return []
-        names = sorted(fam)
-        combos = [[f] for f in names] + [[a, b2] for i, a in enumerate(names) for b2 in names[i + 1:]] + \
-                 ([[x for x in names if x != y] for y in names] if len(names) > 3 else []) + \
-                 ([names] if len(names) > 2 else [])
-        out = []
-        for combo in combos:
-            # the failure modes observed must be recorded for what is blamed
-            allowed = set()
-            if F17 in combo or F25 in combo:
+        # the failure modes observed must be recorded for what is blamed
+        allowed = set()
+        for i in fam[F22]:
+            allowed |= c20gaps.modes(keys[i]) & {"idem", "noparse", "meaning"}
+            if c20gaps.carries_break(keys[i]) and c20gaps.one_line(keys[i]):
                 allowed.add("idem")
-            if F22 in combo:
-                for i in fam[F22]:
-                    allowed |= c20gaps.modes(keys[i]) & {"idem", "noparse", "meaning"}
-                    if c20gaps.carries_break(keys[i]) and c20gaps.one_line(keys[i]):
-                        allowed.add("idem")
-            if F24 in combo:
-                allowed |= {"meaning", "idem"}
-            if not ms <= allowed:
-                continue
-            # blamed on white space inside comments alone: the two passes may differ in nothing else
-            if combo == [F17] and not only_leading_ws_differs(obs["fmt1"], obs["fmt2"]):
-                continue
-            if set(combo) <= {F17, F25} and not only_blank_runs_differ(obs["fmt1"], obs["fmt2"]):
-                continue
-            edits = {}
-            for f in combo:
-                if f == F24:
-                    continue
-                for i, t in fam[f].items():
-                    if t == " " or i not in edits:      # removing a comment wins over repairing it
-                        edits[i] = t
-                    elif edits[i] != " ":               # two repairs of one comment: both
-                        edits[i] = COMMENT_REPAIR[f](edits[i])
-            src2 = edit_comments(case["src"], cmts, edits) if edits else case["src"]
-            if src2 is not None and F24 in combo:
-                src2 = apply_string_edits(src2, obs["toks"], fam[F24])
-            if src2 is not None and src2 != case["src"]:
-                out.append((combo, src2))
-        return out
+        if not ms <= allowed:
+            return []
+        src2 = edit_comments(case["src"], cmts, fam[F22])
+        if src2 is None or src2 == case["src"]:
+            return []
+        return [([F22], src2)]
 
     # ---- direct monitor: comments must not disappear -------------------------------
     def extra(self, ctx):
